@@ -39,6 +39,9 @@ func check(doc *ser.Doc, res *ser.Result, wrongLengths bool) error {
 		if p.Clause == "length" && wrongLengths {
 			continue
 		}
+		if p.Clause == "endstream-eol" && res.Choices.EndstreamNoEOL {
+			continue
+		}
 		return fmt.Errorf("not well formed: %s", p)
 	}
 	if len(f.Sections) != len(doc.Revisions) {
@@ -331,5 +334,29 @@ func TestTightObjStm(t *testing.T) {
 	}
 	if touching == 0 {
 		t.Error("no object stream with the first member touching the table")
+	}
+}
+
+// no end-of-line marker before endstream where /Length is right
+func TestNoEOLBeforeEndstream(t *testing.T) {
+	for seed := int64(1); seed <= 300; seed++ {
+		r := rand.New(rand.NewSource(seed))
+		wrong := seed%2 == 0
+		doc := ser.RandomDoc(r, 3, 4, wrong)
+		c := ser.PickChoices(seed)
+		c.EndstreamNoEOL = true
+		res, err := ser.RenderResult(doc, &ser.Options{Seed: seed, Choices: &c})
+		if err != nil {
+			t.Fatal(err)
+		}
+		if err := check(doc, res, wrong); err != nil {
+			t.Fatalf("seed %d: %v", seed, err)
+		}
+		f, _ := strict.Parse(res.Bytes)
+		for _, o := range f.Objects {
+			if o.Stream != nil && (o.Stream.EOLBefore == "") != o.Stream.LengthOK {
+				t.Fatalf("seed %d: stream %s: EOL %q, length ok %v", seed, o.Ref, o.Stream.EOLBefore, o.Stream.LengthOK)
+			}
+		}
 	}
 }
